@@ -1,6 +1,7 @@
 # Per-property configuration of the driver (see DESIGN.md §4). Case counts are per tier and per
 # build variant; the driver divides them over the workers.
 PROPS = {}
+PENDING = {}  # property id -> reason it is not claimed
 
 PROPS['C20'] = dict(
     src='props/C20.cpp', variants=['fast', 'asan'], level='exploration',
@@ -10,5 +11,8 @@ PROPS['C20'] = dict(
     thorough=dict(cases={'fast': 200_000_000, 'asan': 20_000_000}, enum={'fast': 2, 'asan': 2}),
     strata=dict(quick=['all 1-bit, 2-bit and low-mask values x buffer sizes 0..32', 'all repeated-hex-digit strings of length 1..16', 'every printable non-hex first character'],
                 thorough=['all 1-bit, 2-bit and low-mask values x buffer sizes 0..32', 'all repeated-hex-digit strings of length 1..16', 'every printable non-hex first character']),
+    level_text='generated (value, buffer size) pairs and parse strings checked against a hand-written formatter/parser, under ASan/UBSan with exact-size guarded buffers, plus complete enumeration of the 1-bit/2-bit/low-mask strata for all buffer sizes 0..32; testing, not proof, over the 2^64 values',
+    level_note='trusted: the hand-written reference renderer/parser in props/C20.cpp; prefixes sscanf may legitimately accept (white space, sign, 0x) are not judged',
+    technique='property-based testing (rapidcheck): round trip + hand-written reference formatter/parser; exhaustive enumeration of small strata',
     assumptions=['reference renderer/parser written by hand (no printf/strtoull)', 'sscanf-permitted prefixes (white space, sign, 0x) are not asserted either way'],
 )
